@@ -142,3 +142,27 @@ Proof.
   - exists [], []. change (written [TCall s req; e]) with (written [e]). rewrite (written_terminal e Hterm).
     split; [exists []; reflexivity|]. intros f [<-|[]]. left. reflexivity.
 Qed.
+
+(* ---- many connections at once (C18): each connection's trace has the shape above whatever the schedule of the
+   connections' traffic and whatever its own transport does with the replies (partial / pending / failing writes and
+   flushes); the traffic of the others does not change it ---- *)
+From TM Require Import AcceptProofs.
+
+Definition conn_trace_w (p : proto) (m : mode) (svc : N -> list svc_reply) (wqs : N -> list wev) (fqs : N -> list fev)
+           (s : schedule) (c : N) : list tev :=
+  serve_conn p m (grun s c) (wqs c) (fqs c) (svc c).
+
+Theorem conn_trace_w_default p m svc s c : conn_trace_w p m svc (fun _ => []) (fun _ => []) s c = conn_trace p m svc s c.
+Proof. reflexivity. Qed.
+
+Theorem noninterference_w p m svc wqs fqs s1 s2 c :
+  events_of c s1 = events_of c s2 -> conn_trace_w p m svc wqs fqs s1 c = conn_trace_w p m svc wqs fqs s2 c.
+Proof. intros H. unfold conn_trace_w. rewrite !grun_projection, H. reflexivity. Qed.
+
+Theorem every_connection_trace p m svc wqs fqs s c : Trace p m (svc c) (conn_trace_w p m svc wqs fqs s c).
+Proof. unfold conn_trace_w. apply serve_conn_trace. Qed.
+
+Corollary every_connection_written p m svc wqs fqs s c :
+  exists fs last, is_prefix (written (conn_trace_w p m svc wqs fqs s c)) (concat fs ++ last)
+    /\ (forall f, In f (fs ++ [last]) -> f = [] \/ exists h rr, server_enc p m h rr = Val f).
+Proof. eapply trace_written. apply every_connection_trace. Qed.
